@@ -33,8 +33,8 @@ type stats struct {
 	deniedSingle, failUser, starDeniedAndAllowedAfterSync, deniedFiltered                     bool
 	stalledDuringWrite, burstCoalesced, burstWithDelete, timeoutFired, shortStallSurvived     bool
 	exactChecked, removeWithSub, removeStarSurvives, resetSeen, staticRound, dynamicRound     bool
-	modelAmbiguous                                                                            bool
-	skippedSteps                                                                              int
+	modelAmbiguous, backdated, richNames, sleptWithACL                                        bool
+	skippedSteps, maxBulk, maxOnceLeaves                                                      int
 }
 
 func (s *stats) labels() []string {
@@ -71,6 +71,12 @@ func (s *stats) labels() []string {
 	add(s.resetSeen, "reset")
 	add(s.staticRound, "static-round-exact")
 	add(s.dynamicRound, "round-with-concurrent-writer")
+	add(s.backdated, "backdated-notification")
+	add(s.richNames, "names-with-common-string-prefix-or-slash")
+	add(s.sleptWithACL, "quiet-period-with-acl")
+	add(s.maxBulk > 32, "bulk-update>32")
+	add(s.maxBulk > 64, "bulk-update>64")
+	add(s.maxBulk > 256, "bulk-update>256")
 	return l
 }
 
@@ -431,6 +437,10 @@ func (w *world) buildNoti(op *WOp) *pb.Notification {
 	name := targetName(op.T % w.sc.Targets)
 	w.ts += 10
 	ts := w.ts
+	if op.Back > 0 && ts > int64(10*op.Back) {
+		ts = ts - int64(10*op.Back) + 5
+		w.st.backdated = true
+	}
 	if op.Old {
 		ts = 5
 	}
@@ -463,10 +473,25 @@ func (w *world) buildNoti(op *WOp) *pb.Notification {
 		}
 		n.Update = append(n.Update, &pb.Update{Path: gn.Path("", "", p, false, 0), Val: u.Val.TV()})
 	}
+	if b := op.Bulk; b != nil && !op.Atomic {
+		for i := b.Start; i < b.Start+b.N; i++ {
+			p := append(append([]gn.Elem{}, b.At...), gn.Elem{Name: fmt.Sprintf("k%d", i)})
+			if b.Leaf != "" {
+				p = append(p, gn.Elem{Name: b.Leaf})
+			}
+			n.Update = append(n.Update, &pb.Update{Path: gn.Path("", "", p, false, 0), Val: gn.Val{Kind: "int", I: b.V}.TV()})
+		}
+		if b.N > w.st.maxBulk {
+			w.st.maxBulk = b.N
+		}
+	}
 	for i, d := range op.Deletes {
 		p := d
 		if i == 0 && first != nil && len(op.Updates) == 0 {
 			p = first
+			if op.Star && len(p) > 0 {
+				p = append(append([]gn.Elem{}, p[:len(p)-1]...), gn.Elem{Name: "*"})
+			}
 		}
 		n.Delete = append(n.Delete, gn.Path("", "", p, false, 0))
 	}
@@ -945,6 +970,10 @@ func (w *world) body() {
 	})
 	for i, sp := range sc.Subs {
 		w.subs = append(w.subs, w.newSub(i, sp))
+		w.st.richNames = w.st.richNames || hasRich(sp.PElems)
+		for _, p := range sp.Paths {
+			w.st.richNames = w.st.richNames || hasRich(p.Elems)
+		}
 	}
 	verifhook.Set(func(name string, key interface{}) {
 		if name == "sub.registered" {
@@ -1140,6 +1169,9 @@ func (w *world) stepSleep(st Step) {
 	}
 	time.Sleep(time.Duration(st.N) * time.Second)
 	synctest.Wait()
+	if w.acl != nil {
+		w.st.sleptWithACL = true
+	}
 	now := w.now()
 	for _, p := range parkedSubs {
 		s := p.s
@@ -1169,6 +1201,16 @@ func (w *world) stepSleep(st Step) {
 		_ = isSync
 	}
 	w.noteProgress()
+}
+
+func hasRich(es []gn.Elem) bool {
+	for _, e := range es {
+		switch e.Name {
+		case "ab", "a/b", "a1":
+			return true
+		}
+	}
+	return false
 }
 
 // monitorSends is the C07 trace monitor plus the "no invention" clause.
